@@ -156,7 +156,7 @@ func canonQuery(m map[uint64][]uint32) string {
 
 func (i *inst) tickers(want int) int {
 	n := perio.VTickers()
-	for k := 0; k < 20000 && n != want; k++ { // an exiting goroutine needs a moment to disappear from the dump
+	for k := 0; k < 2000 && n != want; k++ { // an exiting goroutine needs a moment to disappear from the dump
 		time.Sleep(100 * time.Microsecond)
 		n = perio.VTickers()
 	}
